@@ -1200,7 +1200,7 @@ def mon_c14(sc, res):
 
 
 def mon_c14_all(sc, res):
-    return mon_c14(sc, res) + mon_c03(sc, res)
+    return mon_c14(sc, res) + mon_c03(sc, res) + mon_route_refusals(sc, res)
 
 
 # --------------------------------------------------------------------------- wire discipline (C10 on the assembled daemon)
@@ -1239,3 +1239,43 @@ def mon_wire(log):
             fails.append("wire of c%d: %d byte(s) on the wire that are not (the continuation of) a frame handed to the writer: %s" % (
                 n, len(wire) - pos, wire[pos:pos + 12].hex()))
     return fails[:3]
+
+
+# --------------------------------------------------------------------------- refusals for lack of room
+
+def mon_route_refusals(sc, res):
+    """A routed request may be refused with "routing table full" only when the owner's table cannot take it.  With the default
+    table (64 slots, neighbourhood 32) that needs at least 32 requests in flight at one owner: the monitor adds the entries
+    every peer held at the last state image to the routed requests written since, and flags a refusal below that number."""
+    fails = []
+    cfgv = D.C.config_values(sc.variant)
+    if int(cfgv.get("CONFIG_ROUTING_TABLE_ORDER", "6")) < 6:
+        return fails
+    itr = res["itr"]
+    snaps = {}
+    for sn in res["log"].snaps:
+        if 0 <= sn["step"] < len(itr.smap) and sn.get("internals", True):
+            snaps[itr.smap[sn["step"]]] = sn
+    base = None      # entries at the last image (None: no image yet -> count from the start of the run, which is empty)
+    since = 0
+    for si, st in enumerate(sc.steps):
+        for d, ok, v in step_sends(res, si):
+            if is_obj(v) and cget(v, b"method") is not None and isinstance(cget(v, b"id"), bytes) and b"_" in cget(v, b"id"):
+                since += 1
+            if is_response(v) and has_member(v, b"error"):
+                data = cget(cget(v, b"error"), b"data")
+                if is_obj(data) and cget(data, b"reason") == b"routing table full" and (base or 0) + since < 32:
+                    fails.append("step %d: c%d's request %s was refused with 'routing table full' although at most %d requests can be in flight" % (
+                        si, d, show(cget(v, b"id")), (base or 0) + since))
+        if si in snaps:
+            base = sum(len([x for x in p["routes"].split(",") if x and x != "~"]) for p in snaps[si]["peerlist"])
+            since = 0
+    return fails[:3]
+
+
+def mon_c02_all(sc, res):
+    return mon_c02(sc, res) + mon_c03(sc, res) + mon_c14(sc, res)
+
+
+def mon_c03_all(sc, res):
+    return mon_c03(sc, res) + mon_route_refusals(sc, res)
